@@ -30,9 +30,12 @@ func (d *Drv) Exec(op *Op, x *Exp, opIdx int) (res Result) {
 	}
 	d.cbSeen = nil
 	d.triedStructural = false
+	d.curExch = nil
 	d.leaked = false
 	d.Stat.Ops[op.K]++
 	d.Stat.Paths[op.Path]++
+	d.flushArgs("monitors before " + op.K.String())
+	defer d.flushArgs(op.K.String())
 	func() {
 		defer func() {
 			if r := recover(); r != nil {
@@ -136,7 +139,10 @@ func (d *Drv) leakQuery(op *Op) {
 func (d *Drv) Leaked() bool { return d.leaked }
 
 // structuralRejected attempts one structure-changing operation inside a locked callback (first
-// invocation per op only): it must panic; the sweep after the op proves it had no effect.
+// invocation per op only): it must panic; the sweep after the op proves it had no effect. When the
+// running operation was called on a typed mapper / exchange object with relation arguments, every
+// other attempt is made through that very object with other relation targets: a rejected call must
+// not disturb the operation that is in progress either.
 func (d *Drv) structuralRejected(where string) {
 	if d.triedStructural || !d.W.IsLocked() {
 		return
@@ -148,6 +154,66 @@ func (d *Drv) structuralRejected(where string) {
 			d.viol("C07", "structural-in-callback", "%s succeeded inside a locked %s", what, where)
 		}
 	}()
+	if op := d.cur.Op; len(op.Rels) > 0 && d.opIdx%2 == 0 && (op.Path == PTMap || op.Path == PTExch || op.Path == PMap1) {
+		// another target than the running operation uses: an alive entity outside its targets, else the zero entity
+		var other ecs.Entity
+		var victim ecs.Entity
+		for e := len(d.M.Ents) - 1; e >= 0; e-- {
+			if !d.M.Ents[e].Alive || e >= len(d.H) || d.H[e].IsZero() {
+				continue
+			}
+			if victim.IsZero() {
+				victim = d.H[e]
+			}
+			used := false
+			for _, r := range op.Rels {
+				if r.T == EID(e) {
+					used = true
+				}
+			}
+			if !used {
+				other = d.H[e]
+				break
+			}
+		}
+		if !victim.IsZero() {
+			d.Stat.NestedSameObject++
+			switch op.Path {
+			case PTMap:
+				what = "SetRelations through the mapper of the running operation"
+				var rel []ecs.Relation
+				for j, c := range TupleComps(op.Tuple) {
+					if u.Types[c].IsRel {
+						rel = append(rel, ecs.RelIdx(j, other))
+					}
+				}
+				d.TMap(op.Tuple).SetRelations(victim, rel)
+			case PMap1:
+				what = "SetRelation through the Map[T] of the running operation"
+				c := -1
+				for _, r := range op.Rels {
+					c = r.C
+				}
+				d.Maps[c].SetRelation(victim, other)
+			case PTExch:
+				if d.curExch == nil {
+					break
+				}
+				what = "Add through the exchange object of the running operation"
+				var rel []ecs.Relation
+				for j, c := range TupleComps(op.Tuple) {
+					if u.Types[c].IsRel {
+						rel = append(rel, ecs.RelIdx(j, other))
+					}
+				}
+				vals := make([]int64, len(TupleComps(op.Tuple)))
+				d.curExch.Add(victim, vals, rel)
+			}
+			if what != "" {
+				return // reached only if the call returned normally: reported by the deferred handler
+			}
+		}
+	}
 	switch d.opIdx % 4 {
 	case 0:
 		what = "World.NewEntity"
@@ -298,6 +364,7 @@ func (d *Drv) exec(op *Op, x *Exp) {
 				}
 			} else {
 				ex := typed.Tuples[op.Tuple].NewExch(d.W, d.viaNew())
+			d.curExch = ex
 				switch op.Fn {
 				case FnValue:
 					ex.Add(h, op.Vals, rel)
@@ -319,6 +386,7 @@ func (d *Drv) exec(op *Op, x *Exp) {
 			d.TMap(op.Tuple).Remove(h)
 		case PTExch:
 			ex := typed.Tuples[op.Tuple].NewExch(d.W, d.viaNew())
+			d.curExch = ex
 			ex.Removes(comps(op.Rem))
 			ex.Remove(h)
 		}
@@ -329,6 +397,7 @@ func (d *Drv) exec(op *Op, x *Exp) {
 			d.U.Exchange(h, d.ids(op.Add), d.ids(op.Rem), d.rels(op.Rels, nil, d.opIdx%2)...)
 		case PTExch:
 			ex := typed.Tuples[op.Tuple].NewExch(d.W, d.viaNew())
+			d.curExch = ex
 			if len(op.Rem) > 0 {
 				ex.Removes(comps(op.Rem))
 			}
@@ -429,6 +498,7 @@ func (d *Drv) exec(op *Op, x *Exp) {
 			}
 		case PTExch:
 			ex := typed.Tuples[op.Tuple].NewExch(d.W, d.viaNew())
+			d.curExch = ex
 			if len(op.Rem) > 0 {
 				ex.Removes(comps(op.Rem))
 			}
@@ -467,6 +537,7 @@ func (d *Drv) exec(op *Op, x *Exp) {
 			d.TMap(op.Tuple).RemoveBatch(b, fn)
 		case PTExch:
 			ex := typed.Tuples[op.Tuple].NewExch(d.W, d.viaNew())
+			d.curExch = ex
 			ex.Removes(comps(op.Rem))
 			ex.RemoveBatch(b, fn)
 		}
